@@ -18,6 +18,8 @@ typedef __int128 s128;
 static const uint64_t QS[4] = {Q1, Q2, Q3, Q4};
 static const uint64_t CRTS[4] = {Q1_CRT_CST, Q2_CRT_CST, Q3_CRT_CST, Q4_CRT_CST};
 static const uint64_t M32 = 0xFFFFFFFFull;
+// the property quantifies over ell in [0, 10000] whatever the header says: a smaller MAX_ELL in the source must not shrink the tested domain
+static const uint64_t CONTRACT_ELL = 10000;
 
 static void put_s128(FILE* f, s128 v) {
   char buf[64];
@@ -179,7 +181,7 @@ static void prod_case(Out& out, Rng& rng, int kern, int variant, uint64_t ell, i
   put_u64s(out.ops, y.data(), yrow * ell);
   put_u64s(out.real, res.data(), nres);
   // oracle: exact dot product modulo each prime
-  std::string verdict = (outside || ell > MAX_ELL) ? "na" : "ok";
+  std::string verdict = (outside || ell > CONTRACT_ELL) ? "na" : "ok";
   for (uint64_t r = 0; r < nres && verdict == "ok"; r++) {
     const int k = (int)(r % 4);
     const uint64_t q = QS[k];
@@ -198,7 +200,7 @@ static void prod_case(Out& out, Rng& rng, int kern, int variant, uint64_t ell, i
   }
   out.count(std::string("kern_") + KNAME[kern] + (variant ? "_avx2" : "_ref"));
   out.count(std::string("class_") + CLNAME[cls]);
-  out.count(ell == 0 ? "ell_0" : ell > MAX_ELL ? "ell_beyond_contract" : ell >= 9999 ? "ell_max" : ell <= 3 ? "ell_1_3" : "ell_mid");
+  out.count(ell == 0 ? "ell_0" : ell > CONTRACT_ELL ? "ell_beyond_contract" : ell >= 9999 ? "ell_max" : ell <= 3 ? "ell_1_3" : "ell_mid");
   if (outside) out.count("outside_layout");
   out.endcase(verdict);
 }
@@ -226,21 +228,21 @@ STREAM(q1_prod) {
       prod_case(out, rng, K_BAA, variant, ell, CL_RANDOM, 1);
       prod_case(out, rng, K_BAA, variant, ell, CL_ALLMAX, 1);
     }
-    prod_case(out, rng, K_BAA, variant, 4 * MAX_ELL, CL_ALLMAX);
+    prod_case(out, rng, K_BAA, variant, 4 * CONTRACT_ELL, CL_ALLMAX);
   }
   // maximal lengths: all-max at MAX_ELL for every kernel and variant; more classes in the thorough tier
   for (int kern = 0; kern < NKERN; kern++)
     for (int variant = 0; variant < 2; variant++) {
-      prod_case(out, rng, kern, variant, MAX_ELL, CL_ALLMAX);
+      prod_case(out, rng, kern, variant, CONTRACT_ELL, CL_ALLMAX);
       if (thorough) {
         for (int cls = 0; cls < NCLASS; cls++) {
           if (cls == CL_RAW && kern < K_BBC) continue;
-          if (cls != CL_ALLMAX) prod_case(out, rng, kern, variant, MAX_ELL, cls);
-          if (cls == CL_ALLMAX || cls == CL_ALT || cls == CL_NONCANON) prod_case(out, rng, kern, variant, MAX_ELL - 1, cls);
+          if (cls != CL_ALLMAX) prod_case(out, rng, kern, variant, CONTRACT_ELL, cls);
+          if (cls == CL_ALLMAX || cls == CL_ALT || cls == CL_NONCANON) prod_case(out, rng, kern, variant, CONTRACT_ELL - 1, cls);
         }
       } else {
         int cls = (int)rng.below(kern < K_BBC ? CL_RAW : NCLASS);
-        prod_case(out, rng, kern, variant, MAX_ELL - 1, cls);
+        prod_case(out, rng, kern, variant, CONTRACT_ELL - 1, cls);
       }
     }
 }
